@@ -58,7 +58,7 @@ func checkC04(w *World, r *Report) {
 	c04Durability(w, r, a)
 	c04Publish(w, r)
 	c04DirBeforePublish(w, r, a)
-	c04InstallOrder(w, r, a)
+	c04InstallOrder(w, r, a, "C04.e", "e-install-order")
 	c04Cleanup(w, r)
 	c04ReopenIndex(w, r, a)
 }
@@ -374,8 +374,8 @@ func c04DirBeforePublish(w *World, r *Report, a *FsmA) {
 	_ = n
 }
 
-func c04InstallOrder(w *World, r *Report, a *FsmA) {
-	ob := r.Ob("C04.e", "e-install-order", "each snapshot recoverer, on every success path: every received file is Synced before it is closed/ingested; the new DB is built (open/ingest) before the name is saved; save → replace (success edge) → Swap; Close is called on the value returned by Swap and only after it; the cleanup is reachable only after the replace or on a path on which the replace is unreachable; the stop edge returns without reaching the replace", "any other order lets a crash or stop expose a state that is neither the old nor the new one, or closes a DB that readers still use")
+func c04InstallOrder(w *World, r *Report, a *FsmA, id, slug string) {
+	ob := r.Ob(id, slug, "each snapshot recoverer, on every success path: every received file is Synced before it is closed/ingested; the new DB is built (open/ingest) before the name is saved; save → replace (success edge) → Swap; Close is called on the value returned by Swap and only after it; the cleanup is reachable only after the replace or on a path on which the replace is unreachable; the stop edge returns without reaching the replace", "any other order lets a crash or stop expose a state that is neither the old nor the new one, or closes a DB that readers still use")
 	sp := w.SSAPkg(fsmRel)
 	it, ok := sp.Pkg.Scope().Lookup("snapshotRecoverer").Type().Underlying().(*types.Interface)
 	if !ok {
